@@ -199,6 +199,33 @@ def run_loss(ctx, desc):
         else:
             check_outcome(ctx, rig, c, data, 0, 0, exc, rig.wire(40), must)
         ctx.seen("outcomes", f"{c['loss_class']}:{'ok' if exc is None else type(exc).__name__}")
+        # ---- the same client and server afterwards: an undisturbed block download must be exact (nothing left behind
+        # by the disturbed one: CRC state, queued frames, sequence counters).  A lost server frame arrives late first.
+        rig.bus.fault = None
+        lost = getattr(plan_, "hit", None)
+        if lost is not None and lost.src == "refserver" and exc is not None:
+            rig.bus.inject(rig.tx, lost.data, src="refserver")
+        if fired and (c.get("k", 0) % 3 == 0 or exc is not None):
+            fu = payload(rng.choice([9, 30, 100]), c0["seed"] + 7 + c.get("k", 0))
+            fu_case = dict(c, followup=len(fu))
+            n0 = len(rig.server.commits)
+            if exc is not None:
+                # what an application does after a failed transfer before it tries again: abort explicitly (the
+                # property does not promise that every failed block download leaves the server idle by itself)
+                try:
+                    rig.sdo.abort(0x08000000)
+                except Exception:  # noqa: BLE001
+                    pass
+            try:
+                do_block_download(rig, dict(c0, style="whole", mux=[0x1F51, 2]), fu)
+                ctx.count("followup_block_downloads")
+                new = rig.server.commits[n0:]
+                if not new or new[-1] != ((0x1F51, 2), fu):
+                    ctx.violation("followup-block-download-wrong-data", f"undisturbed block download after ({c['kind']}, outcome {type(exc).__name__ if exc else 'ok'}) committed {new!r}", fu_case, rig.wire(30))
+            except Exception as e2:  # noqa: BLE001
+                if True:
+                    ctx.violation(f"followup-block-download-failed:{type(e2).__name__}", f"undisturbed block download after ({c['kind']} at {c.get('k')}, outcome "
+                                  f"{type(exc).__name__ if exc else 'ok'}) raised {e2!r}", fu_case, rig.wire(30))
         rig.close()
 
     # every single segment position
